@@ -38,6 +38,13 @@ else:
         """
 
 
+def _one_line(text: str) -> str:
+    # Each entry of format() is one line of output. A repr or description
+    # that spans several lines (numpy arrays, say) would break the tree
+    # drawing, so show its line breaks in escaped form instead.
+    return text.replace("\r", "\\r").replace("\n", "\\n")
+
+
 @dataclass
 class FormatOptions:
     ascii_only: bool
@@ -105,7 +112,10 @@ class Stack(Formattable):
 
     def _format_header(self) -> str:
         if self.root is not None:
-            return f"stackscope.Stack of {self.root!r} (most recent call last):\n"
+            return (
+                f"stackscope.Stack of {_one_line(repr(self.root))} "
+                f"(most recent call last):\n"
+            )
         else:
             return "stackscope.Stack (most recent call last):\n"
 
@@ -122,7 +132,7 @@ class Stack(Formattable):
                 marker = start_frame if idx == 0 else continue_frame
                 lines.append(marker + line)
         if self.leaf is not None:
-            lines.append(f"{start_leaf}{self.leaf!r}\n")
+            lines.append(f"{start_leaf}{_one_line(repr(self.leaf))}\n")
         if self.error is not None:
             lines.extend(self._format_error())
         return lines
@@ -476,7 +486,7 @@ class Context(Formattable):
             ).strip()
         if not linetext:
             if self.description:
-                linetext = self.description
+                linetext = _one_line(self.description)
             else:
                 linetext = "async with <???>:" if self.is_async else "with <???>:"
 
@@ -499,7 +509,7 @@ class Context(Formattable):
             else:  # child task stack
                 sublines = child._format(opts)
                 if child.root is not None:
-                    sublines[0] = f"{child.root!r}\n"
+                    sublines[0] = f"{_one_line(repr(child.root))}\n"
                 else:
                     sublines[0] = "<unidentified child>\n"
                 if child.frames:
